@@ -162,7 +162,8 @@ def run(ctx: Ctx) -> None:
     try:
         (td / "plugs").mkdir()
         for i, sel in enumerate(sels):
-            prefix = "FURB" if i % 3 else "NEW"
+            # prefixes: the built-in one, unused ones of 3 and 4 letters, and ones that merely begin or end like the built-in one
+            prefix = ("FURB", "NEW", "FURB", "FUR", "ABCD", "URB", "FURB", "FURA", "URBX")[i % 9]
             target = td / "plugs" / f"g{i}.py"
             try:
                 text = real_generate(sel, prefix, target)
